@@ -69,6 +69,7 @@ def tree_cases(tier, seed, flags):
     cs += gens.g_fixtures(flags=flags)
     cs += gens.g_ent_random(seed, 300 if q else 3000, flags=flags)
     cs += gens.g_mutations(seed, 1500 if q else 15000, flags=flags)
+    cs += gens.g_long(flags=flags)
     return cs
 
 
@@ -89,12 +90,13 @@ def c04_cases(tier, seed):
     if q:
         rnd = random.Random(seed)
         more = gens.g_pieces_text(3, positions=(0,))
-        cs += rnd.sample(more, 6000)
+        cs += rnd.sample(more, min(len(more), 6000))
     else:
         rnd = random.Random(seed)
         more = gens.g_pieces_text(4, positions=(0,))
-        cs += rnd.sample(more, 60000)
+        cs += rnd.sample(more, min(len(more), 60000))
     cs += gens.g_cst(seed, 800 if q else 6000, flags="nc", renderings=2, hoist=False)
+    cs += gens.g_long(flags="nc")
     return cs
 
 
@@ -136,6 +138,47 @@ def c06_cases(tier, seed):
     s = "".join("<e xmlns:p='u%d'>" % i for i in range(depth)) + "<p:x/>" + "</e>" * depth
     cs.append(Case(s, "c", True, meta={"gen": "ns-deep"}))
     return cs
+
+
+def c06_extra(tier, seed, harness_rel, harness_dbg):
+    """scale families around the documented 2^16 limit of distinct namespaces (implementation only)"""
+    fails, info = [], []
+    ks = [65535, 65536] if tier == "quick" else [65534, 65535, 65536, 65537]
+    work = os.path.join(BUILD, "work-C06")
+    os.makedirs(work, exist_ok=True)
+    for k in ks:
+        for style in ("default", "prefixed"):
+            if tier == "quick" and style == "prefixed" and k != 65536:
+                continue
+            if style == "default":
+                doc = "<r>" + "".join("<e xmlns='u%d'/>" % i for i in range(k)) + "</r>"
+            else:
+                doc = "<r>" + "".join("<p:e xmlns:p='u%d'/>" % i for i in range(k)) + "</r>"
+            c = Case(doc, "", True)
+            path = os.path.join(work, "scale.cases")
+            # only the last element's content is needed: dump everything but keep the tail
+            rxlib.write_cases([Case(doc, "c", True)], path)
+            t1 = time.time()
+            p = subprocess.run([harness_rel, "dump", path], stdout=subprocess.PIPE, stderr=subprocess.DEVNULL, env=rxlib.ENV)
+            out = p.stdout.decode().splitlines()
+            dt = time.time() - t1
+            head = out[0] if out else ""
+            ok_expected = k <= 65535           # the xml namespace takes one of the 2^16 slots
+            info.append({"family": "namespaces-%s-%d" % (style, k), "result": head, "seconds": round(dt, 1)})
+            if ok_expected:
+                if " R ok" not in head:
+                    fails.append({"why": "%d distinct namespaces (%s) are within the documented limit but parsing fails: %s" % (k, style, " | ".join(out[:2])), "family": "namespaces-%s-%d" % (style, k)})
+                else:
+                    q = [l for l in out if " Q " in l]
+                    want = "x" + ("u%d" % (k - 1)).encode().hex()
+                    if not q or q[-1].split(" ")[3] != want:
+                        fails.append({"why": "%d distinct namespaces (%s): the last element resolves to %s, expected %s" % (k, style, q[-1] if q else None, want), "family": "namespaces-%s-%d" % (style, k)})
+            else:
+                if " R ok" in head:
+                    fails.append({"why": "%d distinct namespaces (%s) exceed the documented 2^16 limit but the document is accepted (mis-resolution)" % (k, style), "family": "namespaces-%s-%d" % (style, k)})
+                elif not any("NamespacesLimitReached" in l for l in out[:3]):
+                    fails.append({"why": "%d distinct namespaces (%s): expected NamespacesLimitReached, got %s" % (k, style, " | ".join(out[:2])), "family": "namespaces-%s-%d" % (style, k)})
+    return fails, info
 
 
 def c07_cases(tier, seed):
@@ -328,6 +371,7 @@ def c09_cases(tier, seed):
     cs = gens.g_ent_cycles(32, flags="c")
     cs += gens.g_ent_fanout(sorted(set(fs)), list(range(1, 13)), flags="c")
     cs += gens.g_ent_chains(14, flags="c")
+    cs += gens.g_ent_empty(flags="c")
     cs += gens.g_ent_toplevel(1000 if q else 100000, flags="c")
     cs += gens.g_ent_random(seed, 1500 if q else 15000, flags="c")
     return cs
@@ -338,6 +382,7 @@ def api_docs(tier, seed, flags):
     cs = gens.g_tokens(2 if q else 3, flags=flags)
     cs += gens.g_cst(seed, 250 if q else 2500, flags=flags, renderings=1, hoist=True, size=10)
     cs += gens.g_fixtures(flags=flags)
+    cs += gens.g_long(flags=flags, counts=[2, 3, 16, 17, 33])
     return cs
 
 
@@ -350,14 +395,18 @@ def c10_cases(tier, seed):
 
 def c13_cases(tier, seed):
     q = tier == "quick"
-    cs = gens.g_cst(seed, 1200 if q else 10000, flags="ncp", renderings=2, hoist=False, doctype_free=True)
-    cs += gens.g_cst(seed + 7, 600 if q else 5000, flags="ncp", renderings=2, hoist=True)
-    cs += gens.g_fixtures(flags="ncp")
-    cs += gens.g_tokens(2 if q else 3, flags="ncp")
-    cs += gens.g_ent_random(seed, 300 if q else 3000, flags="ncp")
+    cs = gens.g_cst(seed, 1200 if q else 10000, flags="ncpb", renderings=2, hoist=False, doctype_free=True)
+    cs += gens.g_cst(seed + 7, 600 if q else 5000, flags="ncpb", renderings=2, hoist=True)
+    cs += gens.g_fixtures(flags="ncpb")
+    cs += gens.g_tokens(2 if q else 3, flags="ncpb")
+    cs += gens.g_ent_random(seed, 300 if q else 3000, flags="ncpb")
     # the documented saturation limits of the attribute sub-ranges
     cs.append(Case("<r " + "a" * 70000 + "='v'/>", "p", True, meta={"gen": "qname-sat"}))
     cs.append(Case("<r a" + " " * 300 + "='v'/>", "p", True, meta={"gen": "eq-sat"}))
+    cs += gens.g_long(flags="ncpb")
+    rnd = random.Random(seed + 3)
+    more = gens.g_pieces_text(3, positions=(0, 1))
+    cs += [Case(c.data, "ncpb", True, meta=c.meta) for c in rnd.sample(more, min(len(more), 3000 if q else 20000))]
     return cs
 
 
@@ -398,7 +447,7 @@ def c13_cases_with_shift(tier, seed):
     for i in rnd.sample(base_idx, min(len(base_idx), 300 if tier == "quick" else 3000)):
         k = rnd.randint(1, 5)
         ws = "".join(rnd.choice(" \t\n") for _ in range(k))
-        cs.append(Case(ws.encode() + cs[i].data, "ncp", True, meta={"gen": "shift", "of": i, "k": k}))
+        cs.append(Case(ws.encode() + cs[i].data, "ncpb", True, meta={"gen": "shift", "of": i, "k": k}))
         groups.append((i, len(cs) - 1, k))
     SHIFT_GROUPS["C13"] = groups
     return cs
@@ -467,21 +516,35 @@ def c15_cases(tier, seed):
     base += gens.g_tokens(2, flags="")
     base += gens.g_ent_fanout([1, 2, 3, 5], [1, 2, 3]) + gens.g_ent_random(seed, 100 if q else 1000)
     base += gens.g_mutations(seed, 150 if q else 1500)
+    # entity expansion multiplying element / comment / text nodes
+    for k in (1, 2, 3, 8, 20):
+        for val in ("<a/><a/><a/><a/>", "<a>t</a>", "<!--c-->x<?p?>", "<a><b/></a>t"):
+            base.append(Case(gens.ent_doc([("e", val)], "<r>" + "&e;" * k + "</r>"), "", True, meta={"gen": "ent-multiply", "k": k}))
+    base.append(Case(gens.ent_doc([("e", "<a/><a/>"), ("f", "&e;&e;&e;"), ("g", "&f;&f;&f;")], "<r>&g;&g;</r>"), "", True, meta={"gen": "ent-multiply-nested"}))
+    for s in ("<a>x<![CDATA[y]]></a>", "<a><b/>x<![CDATA[y]]>z</a>", "<a>x<!--c-->y</a>"):
+        base.append(Case(s, "", True, meta={"gen": "text-merge"}))
+    base.append(Case(gens.ent_doc([("e", "y")], "<a>x&e;z</a>"), "", True, meta={"gen": "text-merge"}))
     rnd = random.Random(seed)
-    cs = []
-    groups = []
+    # phase 1: the unlimited parses give N (the quantifier's limits are relative to N)
+    pre = []
     for c in base:
         for dtd in (True, False):
-            # the unlimited run first; limits depend on its node count, so use a spread of small limits
-            # plus N-1, N, N+1 guessed from the number of '<' (exact N is used by the relation afterwards)
-            gi = len(cs)
-            cs.append(Case(c.data, "n", dtd, U32MAX, meta=c.meta))
-            guess = c.data.count(b"<") + 2
-            ls = sorted(set([0, 1, 2, 3, 4, 5, 6, 7, 8, 9, 10, 12, 16] + [rnd.randint(0, 2 * guess) for _ in range(3)] + [guess - 1, guess, guess + 1]))
-            ls = [l for l in ls if l >= 0]
-            for l in ls:
-                cs.append(Case(c.data, "n", dtd, l, meta=c.meta))
-            groups.append((gi, len(ls)))
+            pre.append(Case(c.data, "n", dtd, U32MAX, meta=c.meta))
+    harness = os.path.join(rxlib.HARNESS, "target", "release", "rxharness")
+    res = rxlib.run_sharded(harness, ["dump"], pre, os.path.join(BUILD, "work-C15"), "pre")
+    cs = []
+    groups = []
+    for i, c in enumerate(pre):
+        r = res[i]
+        n = int(r[0].split(" ")[2]) if rxlib.result_class(r) == "ok" else c.data.count(b"<") + 2
+        ls = set([0, 1, 2, 3, max(0, n - 2), max(0, n - 1), n, n + 1, n + 2, (n + 1) // 2, U32MAX - 1])
+        ls |= set(rnd.randint(0, 2 * n + 2) for _ in range(4))
+        ls = sorted(ls)
+        gi = len(cs)
+        cs.append(c)
+        for l in ls:
+            cs.append(Case(c.data, "n", c.dtd, l, meta=c.meta))
+        groups.append((gi, len(ls)))
     LIMIT_GROUPS["C15"] = groups
     return cs
 
@@ -548,6 +611,12 @@ def c18_cases(tier, seed):
     q = tier == "quick"
     cs = gens.g_cst(seed, 1000 if q else 8000, flags="ncb", renderings=2, hoist=True)
     cs += gens.g_fixtures(flags="ncb") + gens.g_tokens(2 if q else 3, flags="ncb") + gens.g_ent_random(seed, 300 if q else 3000, flags="ncb")
+    cs += gens.g_long(flags="ncb")
+    rnd = random.Random(seed + 5)
+    more = gens.g_pieces_text(3, positions=(0, 1))
+    cs += [Case(c.data, "ncb", True, meta=c.meta) for c in rnd.sample(more, min(len(more), 3000 if q else 20000))]
+    more = gens.g_pieces_attr(3)
+    cs += [Case(c.data, "ncb", True, meta=c.meta) for c in rnd.sample(more, min(len(more), 2000 if q else 8000))]
     # fast-path families
     for body, borrowed in (("plain text", True), ("two\nlines\ttab", True), ("a&amp;b", False), ("a\rb", False), ("a\r\nb", False), ("é中", True), ("a&#65;", False)):
         cs.append(Case("<r>" + body + "</r>", "ncb", True, meta={"gen": "fast-text", "expect_borrowed_text": borrowed, "text_node": 2}))
@@ -745,7 +814,7 @@ defprop("C04", "other", {"R", "N", "X"}, c04_cases, oracle=all_oracles(oracles.o
 defprop("C05", "other", {"R", "A"}, c05_cases, oracle=all_oracles(oracles.o_attr_pieces, oracles.o_expected_content(("A",)), oracles.o_must_reject),
         rule="exhaustive attribute-value piece sequences (15 pieces, both quotes), attribute lists of 0..40, random documents; non-trivial = accepted; distinct by dump",
         technique="Coq proof of attribute-value normalisation + correspondence")
-defprop("C06", "other", {"R", "Q", "A", "S"}, c06_cases, oracle=oracles.o_expected_content(("Q", "A", "S")),
+defprop("C06", "other", {"R", "Q", "A", "S"}, c06_cases, oracle=oracles.o_expected_content(("Q", "A", "S")), extra=c06_extra,
         rule="all trees of <= 2 (quick) / 3 (thorough) elements x 7 declaration choices x 4 prefixes, declaration pairs, prefixed attributes, random documents; non-trivial = accepted; distinct by dump",
         technique="Coq proof of scope refinement + correspondence")
 defprop("C07", "other", {"R", "N", "Q", "A", "S", "K", "C", "X"}, c07_cases, oracle=all_oracles(oracles.o_expected_content(oracles.CONTENT), oracles.o_wf_tree),
